@@ -33,6 +33,11 @@ type vGen struct {
 	bad    string
 	fixedLabels [][]byte // if set, every name (owner and RDATA) is this name
 	owner       [][]byte // if set, the owner name (not drawn)
+	plainStr    bool     // the next character-string holds letters only even with gen.anystr (CAA tags: RFC 8659 4.1)
+	minStr      int      // shortest character-string drawn (set around fields that must not be empty)
+	minBlob     int      // gen.minblob: shortest opaque (hex/base64) field drawn
+	ints        int      // gen.ints: 1 = integer fields are fixed values (see constInt)
+	intSel      int
 	vals    []uint64 // every symbolic draw, in order
 	like    *vGen    // reuse the draws of this generator ...
 	mut     int      // ... except draw number mut (fresh)
@@ -53,10 +58,59 @@ func (g *vGen) draw(fresh func() uint64) uint64 {
 	g.vals = append(g.vals, v)
 	return v
 }
-func (g *vGen) dU8() uint8   { n := g.nm(); return uint8(g.draw(func() uint64 { return uint64(vU8(n)) })) }
-func (g *vGen) dU16() uint16 { n := g.nm(); return uint16(g.draw(func() uint64 { return uint64(vU16(n)) })) }
-func (g *vGen) dU32() uint32 { n := g.nm(); return uint32(g.draw(func() uint64 { return uint64(vU32(n)) })) }
-func (g *vGen) dU64() uint64 { n := g.nm(); return g.draw(func() uint64 { return vU64(n) }) }
+func (g *vGen) dU8() uint8 {
+	n := g.nm()
+	return uint8(g.draw(func() uint64 {
+		if g.ints != 0 {
+			return g.constInt(8)
+		}
+		return uint64(vU8(n))
+	}))
+}
+func (g *vGen) dU16() uint16 {
+	n := g.nm()
+	return uint16(g.draw(func() uint64 {
+		if g.ints != 0 {
+			return g.constInt(16)
+		}
+		return uint64(vU16(n))
+	}))
+}
+func (g *vGen) dU32() uint32 {
+	n := g.nm()
+	return uint32(g.draw(func() uint64 {
+		if g.ints != 0 {
+			return g.constInt(32)
+		}
+		return uint64(vU32(n))
+	}))
+}
+func (g *vGen) dU64() uint64 {
+	n := g.nm()
+	return g.draw(func() uint64 {
+		if g.ints != 0 {
+			return g.constInt(64)
+		}
+		return vU64(n)
+	})
+}
+
+// constInt (gen.ints=1): integer fields take fixed values instead of symbolic ones - all zero, all ones, or a
+// pattern that differs per field - chosen once per record (printing and parsing decimal numbers of symbolic
+// integers forks per digit; the decimal round trip is checked by its own harness).
+func (g *vGen) constInt(w uint) uint64 {
+	if g.intSel == 0 {
+		g.intSel = 1 + vChoice(g.pfx+"ints", 3)
+	}
+	switch g.intSel {
+	case 1:
+		return 0
+	case 2:
+		return (uint64(1) << (w - 1) << 1) - 1
+	}
+	v := uint64(0x9E3779B97F4A7C15) * uint64(g.n+3)
+	return (v >> 13) & ((uint64(1) << (w - 1) << 1) - 1)
+}
 func (g *vGen) dBytes(k int) []byte {
 	n := g.nm()
 	b := make([]byte, k)
@@ -89,6 +143,8 @@ func vNewGen(pfx string) *vGen {
 		maxLabels: vParam("gen.labels", 1),
 		maxOct:    vParam("gen.octets", 1),
 		maxList:   vParam("gen.list", 1),
+		ints:      vParam("gen.ints", 0),
+		minBlob:   vParam("gen.minblob", 0),
 	}
 }
 
@@ -305,6 +361,14 @@ func (g *vGen) octets(k int, textual bool) []byte {
 	return b
 }
 
+// strOctets: contents of character-strings; gen.anystr=1 makes them arbitrary octets while names keep letters.
+func (g *vGen) strOctets(k int) []byte {
+	if vParam("gen.anystr", 0) == 1 && !g.plainStr {
+		return g.octets(k, false)
+	}
+	return g.octets(k, true)
+}
+
 func (g *vGen) drawLabels() [][]byte {
 	if g.fixedLabels != nil {
 		return g.fixedLabels
@@ -417,8 +481,8 @@ func (g *vGen) Name(p *string, compressible bool) {
 // Str: <character-string>
 func (g *vGen) Str(p *string) {
 	if !g.check {
-		k := g.choice(g.nm()+"sl", g.maxStr+1)
-		b := g.octets(k, true)
+		k := g.minStr + g.choice(g.nm()+"sl", g.maxStr+1-g.minStr)
+		b := g.strOctets(k)
 		s, esc := refEscapeTxt(b)
 		if esc {
 			g.esc = true
@@ -466,7 +530,7 @@ func (g *vGen) Strs(p *[]string) {
 func (g *vGen) OctetRest(p *string) {
 	if !g.check {
 		k := g.choice(g.nm()+"ol", g.maxStr+1)
-		b := g.octets(k, true)
+		b := g.strOctets(k)
 		s, esc := refEscapeTxt(b)
 		if esc {
 			g.esc = true
@@ -501,7 +565,7 @@ func (g *vGen) AnyRest(p *string) {
 
 func (g *vGen) blob(k int) []byte {
 	if k < 0 {
-		k = g.choice(g.nm()+"bl", g.maxBlob+1)
+		k = g.minBlob + g.choice(g.nm()+"bl", g.maxBlob+1-g.minBlob)
 	}
 	return g.octets(k, false)
 }
@@ -511,7 +575,7 @@ func (g *vGen) blob(k int) []byte {
 // octets: with one symbolic octet every digit depends on a single variable and is decided exactly.
 func (g *vGen) blob1(k int) []byte {
 	if k < 0 {
-		k = g.choice(g.nm()+"bl", g.maxBlob+1)
+		k = g.minBlob + g.choice(g.nm()+"bl", g.maxBlob+1-g.minBlob)
 	}
 	b := make([]byte, k)
 	for i := range b {
@@ -585,7 +649,29 @@ func (g *vGen) B32(p *string, b []byte) {
 
 func (g *vGen) IP(p *net.IP, n int) {
 	if !g.check {
-		b := g.octets(n, false)
+		var b []byte
+		if g.ints != 0 {
+			// fixed addresses (printing symbolic addresses forks per digit): all zero, all ones, or 2001:db8::<n>:1
+			if g.intSel == 0 {
+				g.intSel = 1 + vChoice(g.pfx+"ints", 3)
+			}
+			b = make([]byte, n)
+			switch g.intSel {
+			case 2:
+				for i := range b {
+					b[i] = 0xFF
+				}
+			case 3:
+				pat := []byte{0x20, 0x01, 0x0d, 0xb8, 0, 0, 0, 0, 0, 0, 0, 0, 0, byte(g.n + 1), 0, 1}
+				if n == 4 {
+					pat = []byte{192, 0, 2, byte(g.n + 1)}
+				}
+				copy(b, pat)
+			}
+			g.n++
+		} else {
+			b = g.octets(n, false)
+		}
 		*p = net.IP(append([]byte(nil), b...))
 		g.wire = append(g.wire, b...)
 		g.rec(vField{b: b})
@@ -628,7 +714,18 @@ func (g *vGen) Bitmap(p *[]uint16) {
 		for _, pi := range picks {
 			bit := g.dU8() & 7
 			m := vBitmapMenu[pi]
-			ts = append(ts, uint16(m[0]*256+m[1]*8)+uint16(bit))
+			tt := uint16(m[0]*256+m[1]*8) + uint16(bit)
+			if g.ints != 0 {
+				// types 0 and 65535 print as "None" / "Reserved", which the parser does not read back (known finding
+				// C05-none-reserved-mnemonics, checked by H_C05_mnemonics); they never appear in a well-formed bitmap
+				if tt == 0 {
+					tt = 1
+				}
+				if tt == 65535 {
+					tt = 65534
+				}
+			}
+			ts = append(ts, tt)
 		}
 		*p = ts
 		// RFC 4034 §4.1.2 encoding
@@ -915,7 +1012,11 @@ func vVisit(g *vGen, rr RR) bool {
 		g.Hex(&x.Salt, salt)
 		var h []byte
 		if !g.check {
-			h = g.blob1(1 + g.choice(g.nm()+"hl", g.maxBlob+1))
+			if vParam("gen.nsec3full", 0) == 1 {
+				h = g.blob1(20) // the only defined hash (SHA-1) is 20 octets; the parser fixes the length to 20
+			} else {
+				h = g.blob1(1 + g.choice(g.nm()+"hl", g.maxBlob+1))
+			}
 		}
 		g.LenU8(&x.HashLength, len(h))
 		g.B32(&x.NextDomain, h)
@@ -928,6 +1029,25 @@ func vVisit(g *vGen, rr RR) bool {
 		g.LenU8(&x.SaltLength, len(salt))
 		g.Hex(&x.Salt, salt)
 	case *LOC:
+		if g.ints != 0 && !g.check {
+			// RFC 1876 well-formed values only (version 0, size/precision digits 0..9, coordinates within +-90/180 degrees)
+			if g.intSel == 0 {
+				g.intSel = 1 + vChoice(g.pfx+"ints", 3)
+			}
+			v := [][7]uint32{{0, 0x00, 0x00, 0x00, 1 << 31, 1 << 31, 0},
+				{0, 0x99, 0x99, 0x99, 1<<31 + 90*3600000, 1<<31 - 180*3600000, 0xFFFFFFFF},
+				{0, 0x12, 0x16, 0x13, 1<<31 - 1234567, 1<<31 + 7654321, 10000000 + 4200}}[g.intSel-1]
+			x.Version, x.Size, x.HorizPre, x.VertPre = uint8(v[0]), uint8(v[1]), uint8(v[2]), uint8(v[3])
+			x.Latitude, x.Longitude, x.Altitude = v[4], v[5], v[6]
+			g.wire = append(g.wire, x.Version, x.Size, x.HorizPre, x.VertPre)
+			for _, u := range v[4:] {
+				g.wire = append(g.wire, byte(u>>24), byte(u>>16), byte(u>>8), byte(u))
+			}
+			for _, u := range v {
+				g.rec(vField{u: uint64(u)})
+			}
+			break
+		}
 		g.U8(&x.Version)
 		g.U8(&x.Size)
 		g.U8(&x.HorizPre)
@@ -958,7 +1078,12 @@ func vVisit(g *vGen, rr RR) bool {
 		g.OctetRest(&x.Target)
 	case *CAA:
 		g.U8(&x.Flag)
+		if g.minBlob > 0 {
+			g.minStr = 1 // RFC 8659 4.1: the tag length MUST be at least 1
+		}
+		g.plainStr = true
 		g.Str(&x.Tag)
+		g.minStr, g.plainStr = 0, false
 		g.OctetRest(&x.Value)
 	case *IPSECKEY:
 		g.U8(&x.Precedence)
